@@ -57,11 +57,13 @@ static int mapped(void *p, size_t n){ return msync(p,n,MS_ASYNC)==0 || errno!=EN
 static int still_ours(unsigned char *p, int r){ int fd[2]; if(pipe(fd)) return 0; unsigned char v[16]; int ours=0;
   if(write(fd[1],p,16)==16 && read(fd[0],v,16)==16){ ours=1; for(int i=0;i<16;i++) if(v[i]!=(unsigned char)(i*7+r)) ours=0; }
   close(fd[0]); close(fd[1]); return ours; }
+extern dispatch_data_t dispatch_data_create_f(const void *buffer, size_t size, dispatch_queue_t queue, dispatch_function_t destructor);
 static void predefined(int rounds){ signal(SIGILL,pd_crash); signal(SIGSEGV,pd_crash); signal(SIGABRT,pd_crash); long pg=sysconf(_SC_PAGESIZE);
   for(int r=0;r<rounds && !viol;r++){ int kind=(int)(rnd()%2); size_t n = kind? (size_t)pg*(1+rnd()%3) : 1+rnd()%4000; unsigned char *b;
     if(kind){ b=mmap(NULL,n,PROT_READ|PROT_WRITE,MAP_PRIVATE|MAP_ANONYMOUS,-1,0); if(b==MAP_FAILED) return; } else b=malloc(n);
     for(size_t i=0;i<n;i++) b[i]=(unsigned char)(i*7+r);
-    dispatch_data_t d=dispatch_data_create(b,n,NULL, kind?DISPATCH_DATA_DESTRUCTOR_MUNMAP:DISPATCH_DATA_DESTRUCTOR_FREE);
+    dispatch_block_t pdd = kind?DISPATCH_DATA_DESTRUCTOR_MUNMAP:DISPATCH_DATA_DESTRUCTOR_FREE;      // through the block and through the function-pointer entry point
+    dispatch_data_t d = (rnd()%2) ? dispatch_data_create_f(b,n,NULL,(dispatch_function_t)pdd) : dispatch_data_create(b,n,NULL,pdd);
     size_t off=rnd()%n, len=1+rnd()%(n-off); dispatch_data_t sub=dispatch_data_create_subrange(d,off,len); dispatch_data_t cat=dispatch_data_create_concat(sub,d);
     if(rnd()%2){ dispatch_release(d); dispatch_release(cat); } else { dispatch_release(cat); dispatch_release(d); }
     usleep(500);
@@ -89,6 +91,11 @@ int main(int argc,char**argv){ uint64_t seed=argc>1?strtoull(argv[1],0,0):1; int
         int o=add(dispatch_data_create_subrange(a->d,off,len)); struct obj *c=&O[o]; c->ok=a->ok; size_t p=0;
         size_t end = off>n? off : (len>n-off? n : off+len);
         for(int q=0;q<a->nseg;q++){ size_t s0=p, s1=p+a->s[q].len; p=s1; size_t lo=s0>off?s0:off, hi=s1<end?s1:end; if(lo<hi) c->s[c->nseg++]=(struct seg){a->s[q].leaf,a->s[q].from+(lo-s0),hi-lo}; } lg_derive((int)(a-O),-1,c); }
+      else if(k==7 && nl>=1 && nobj<MAXO && rnd()%2){ struct obj *a=&O[live[rnd()%nl]]; size_t n=osize(a); if(!n || !a->ok) continue;     // the region that contains a location: an object of its own
+        size_t loc=rnd()%n, off=(size_t)-1; dispatch_data_t rg=dispatch_data_copy_region(a->d,loc,&off); size_t rn=rg?dispatch_data_get_size(rg):0;
+        if(!rg || off>loc || loc-off>=rn || off+rn>n){ fail("copy_region: the region returned does not contain the requested location: location/offset",(int)loc,(int)off); continue; }
+        int o=add(rg); struct obj *c=&O[o]; c->ok=a->ok; size_t p2=0, end=off+rn;
+        for(int q=0;q<a->nseg;q++){ size_t s0=p2, s1=p2+a->s[q].len; p2=s1; size_t lo=s0>off?s0:off, hi=s1<end?s1:end; if(lo<hi) c->s[c->nseg++]=(struct seg){a->s[q].leaf,a->s[q].from+(lo-s0),hi-lo}; } lg_derive((int)(a-O),-1,c); }
       else if(k==7 && nl>=1 && nobj<MAXO){ struct obj *a=&O[live[rnd()%nl]]; if(logging && a->nseg>1) continue;   /* a flattening map copies into a buffer of the library's own: not tracked in the log */
         const void *p; size_t n; dispatch_data_t m=dispatch_data_create_map(a->d,&p,&n);
         int o=add(m); struct obj *c=&O[o]; *c=*a; c->d=m; c->refs=1; // a map keeps its source bytes alive or copies them: track as dependent (conservative for the oracle only if it shares); mark not-checked for the alive test when it is a copy
